@@ -173,7 +173,7 @@ theorem Inv_congr {σ} (s s' : St σ) (h : Inv s) (h1 : s'.heap = s.heap) (h2 : 
   · rw [h4, h5]; exact h.log_popped
 
 theorem initState_inv (p : Program) (gateCont : Bool) : Inv (p.initState gateCont) :=
-  Inv_congr _ _ (init_inv (p.initState gateCont).ent 0 (p.pre.map (·.1))) rfl rfl rfl rfl rfl rfl
+  Inv_congr _ _ (init_inv (p.initState gateCont).ent p.start (p.pre.map (·.1))) rfl rfl rfl rfl rfl rfl
 
 theorem initState_hookInv (p : Program) (gateCont : Bool) : HookInv (p.initState gateCont) := by
   refine ⟨?_, ?_⟩
